@@ -72,9 +72,12 @@ def scenarios(quick):
     add("scan:suspended-and-resumed", comp(strs) + ["scanner 0 0"], ["scan target=s0 via=blocks blocks=5,9 nr=0.1.1;0.2.1 data=" + yv.hx(bufs[7][:14]), "scan target=s0 via=mem data=" + yv.hx(bufs[8]), "sdestroy 0"])
     # several candidates on the automaton state that is flushed after the LAST byte of a block (strings sharing an atom / one atom a suffix of another): an
     # allocation failure while verifying any of them must surface (or the results must be complete)
-    eob = ["compiler 0", "add 0 - " + yv.hx('rule first { strings: $a = /x[0-9]abcd/ condition: $a } rule second { strings: $b = /[0-9]a?bcd/ condition: $b } '
-                                             'rule third { strings: $c = /7abc[d-e]/ $d = "abcd" condition: $c and $d }'), "getrules 0 0", "cdestroy 0"]
-    add("scan:end-of-block-candidates", eob, ["scanner 0 0", "scan target=s0 via=mem data=" + yv.hx(b"q" * 90 + b"x7abcd"), "scan target=s0 via=blocks blocks=48,48 data=" + yv.hx(b"q" * 42 + b"x7abcd" + b"z" * 42 + b"x7abcd"), "sdestroy 0"])
+    eob_rules = ['rule first { strings: $a = /x[0-9]abcd/ condition: $a }', 'rule second { strings: $b = /[0-9]a?bcd/ condition: $b }',
+                 'rule third { strings: $c = /7abc[d-e]/ $d = "abcd" condition: $c and $d }', 'rule fourth { strings: $e = /[a-z]7a+bcd/ condition: $e }', 'rule fifth { strings: $f = "bcd" condition: $f }']
+    for rot in range(len(eob_rules)):         # the candidate whose verification allocates (the first regexp run of a scanner) takes every position of the state's match list
+        order = eob_rules[rot:] + eob_rules[:rot]
+        eob = ["compiler 0", "add 0 - " + yv.hx(" ".join(order)), "getrules 0 0", "cdestroy 0"]
+        add("scan:end-of-block-candidates:%d" % rot, eob, ["scanner 0 0", "scan target=s0 via=mem data=" + yv.hx(b"q" * 90 + b"x7abcd"), "sdestroy 0"])
     add("init-fini", [], ["fini", "init"])
     return S
 
